@@ -62,8 +62,8 @@ func init() {
 	fw.Register(&fw.Prop{
 		ID:    "C09",
 		Level: "fault_enumeration",
-		Rule: "cases = scripted adversary x local state at close time x {Close, CloseNow} x role. Adversaries: silent; stalls after k bytes of a frame for EVERY k of header and payload of small text / ping / 16-bit-length / fragmented / compressed frames; endless stream of data frames; one endless frame (declared 2^62) fed forever; never reads (tiny receive window) with local writers blocked; half-close; late echo; data message under CloseRead. " +
-			"States: idle, reader blocked, message half read, CloseRead active, writer blocked, pinger waiting. Oracle: monotonic durations against the documented bounds (Close <= 5 s + 5 s + 2.5 s slack, CloseNow <= 2 s, blocked calls return <= 2 s after the closer returned, CloseRead context cancelled <= 2 s after the library closed the transport) under a scheduler canary; a 40 s watchdog turns 'never' into a verdict. " +
+		Rule: "cases = scripted adversary x local state at close time x {Close, CloseNow} x role. Adversaries: silent; stalls after k bytes of a frame for EVERY k of header and payload of small text / ping / 16-bit-length / fragmented / compressed frames; endless stream of data frames; one endless frame (declared 2^62) fed forever; never reads (tiny receive window) with local writers blocked; half-close; late echo; data message under CloseRead; one protocol violation of each of 11 kinds followed by silence; never reads while a streamed fragment fills the write buffer to every level from 4078 to 4100 bytes. " +
+			"States: idle, reader blocked, message half read, CloseRead active, writer blocked, pinger waiting, fragment buffered. Oracle: monotonic durations against the documented bounds (Close <= 5 s + 5 s + 2.5 s slack, CloseNow <= 2 s, blocked calls return <= 2 s after the closer returned, CloseRead context cancelled <= 2 s after the library closed the transport) under a scheduler canary; a 40 s watchdog turns 'never' into a verdict. " +
 			"distinct key = (role, adversary, frame kind, stall position class, local state, closer)",
 		Gen:         c09Gen,
 		InChild:     func(string) int { return 48 },
